@@ -232,15 +232,16 @@ def tree_sha(tree):
 def adjudicate(u, const_path, cases, obs, blobs, init_kind, tag, stats):
     """cases: list of dict(hid, steps(model)) ; returns list of per-history results from TLC"""
     # blob abstractions
-    btab = {"<dir>": {"ok": False, "notice": False, "nl_end": False, "imports": [], "blocks": []}}
+    btab = {"<dir>": {"ok": False, "notice": False, "nl_end": False, "imports": [], "import_chars": [], "blocks": []}}
     for bid, text in blobs.items():
         a = textabs.abstract(text, u.note, u.tab, register=False)
         if a["ok"]:
             btab[bid] = {"ok": True, "notice": a["notice"], "nl_end": a["nl_end"],
-                         "imports": [{"spec": i["spec"], "names": i["names"], "chars": list(i["spec_s"])} for i in a["imports"]],
+                         "imports": [{"spec": i["spec"], "names": i["names"]} for i in a["imports"]],
+                         "import_chars": [list(i["spec_s"]) for i in a["imports"]],
                          "blocks": [b["id"] for b in a["blocks"]]}
         else:
-            btab[bid] = {"ok": False, "notice": False, "nl_end": text.endswith("\n"), "imports": [], "blocks": []}
+            btab[bid] = {"ok": False, "notice": False, "nl_end": text.endswith("\n"), "imports": [], "import_chars": [], "blocks": []}
     paths = {}
     trees = {}
     tree_ids = {}
